@@ -17,7 +17,7 @@ def lim_key(name, d):
     if d.get("panic"):
         m = re.search(r"([\w/.()*]+)\.(\w+)\(", d["panic"].split("|")[0].splitlines()[-1])
         return f"Limits.{short} sink={d['sink']} small-template-limit={str(d['t'] < 3).lower()} panic-in={m.group(2) if m else '?'}"
-    return f"Limits.{short} sink={d['sink']} via={d['via']} width={d['w']}"
+    return f"Limits.{short} sink={d['sink']} via={d['via']} width={d['w']} failing-expression={str(d.get('fails', False)).lower()}"
 
 
 def lim_validate(ctx, tracefile, chunk=40000):
@@ -45,7 +45,7 @@ def lim_rerun(ctx, case):
     os.makedirs(d, exist_ok=True)
     cf = os.path.join(d, "c.ndjson")
     c = case["line"]
-    open(cf, "w").write(json.dumps(dict(t=c["t"], f=c["f"], r=c["r"], sink=c["sink"], n=c["n"], expect=c["expect"], limit=c["limit"])) + "\n")
+    open(cf, "w").write(json.dumps(dict(t=c["t"], f=c["f"], r=c["r"], sink=c["sink"], n=c["n"], expect=c["expect"], limit=c["limit"], fails=c.get("fails", False))) + "\n")
     out = os.path.join(d, "t.tsv")
     ctx.harness(["c05-limits", "-in", cf, "-out", out])
     tf = os.path.join(d, "t.ndjson")
